@@ -171,7 +171,7 @@ func finishCheck(prop, tier string, seed int64, spec PropSpec, results []jobResu
 				}
 				rf.Output = trimOut(out)
 				writeJSON(path, rf)
-				engineOnly := j.Clock == "sym" || j.NoNative || strings.HasSuffix(l, "/alloc-proportional-to-input") || strings.HasSuffix(l, "/unbounded-work")
+				engineOnly := j.Clock == "sym" || j.NoNative || strings.HasSuffix(l, "/alloc-proportional-to-input") || strings.HasSuffix(l, "/unbounded-work") || strings.HasSuffix(l, "/shared-table-written")
 				if engineOnly && confirmConcrete(eng, jr.Cfg, v, l) {
 					// clock readings cannot be forced on the native build: the model is re-run in the
 					// engine's concrete mode (same SSA, every input and clock reading fixed)
